@@ -311,6 +311,53 @@ KNOWN_PARAMS = {
 }
 
 
+KNOWN_ATTRS = {
+    # class: attribute names in declaration order (instance attributes assigned in __init__, dataclass fields)
+    "RouteEntry": ["next_hop_ip", "interface", "dest_prefix", "prefix_len"],
+    "NeighborEntry": ["gate_idx", "mac_address", "route_count"],
+    "BessController": ["_bess"],
+    "RouteController": ["_unresolved_arp_queries_cache", "_neighbor_cache", "_module_gate_count_cache", "_lock", "_ndb", "_ipr",
+                        "_bess_controller", "_ping_missing_thread", "_interfaces"],
+}
+
+
+def _restore_attrs(tree):
+    """N0b: an attribute of the frozen list that is gone and a new attribute declared at the same position of the
+    same class (same number of attributes) is the same attribute under a new name."""
+    notes, ren = [], {}
+    for cls in tree.body:
+        if not isinstance(cls, ast.ClassDef) or cls.name not in KNOWN_ATTRS:
+            continue
+        cur = [st.target.id for st in cls.body if isinstance(st, ast.AnnAssign) and isinstance(st.target, ast.Name)]
+        for mth in cls.body:
+            if isinstance(mth, ast.FunctionDef) and mth.name == "__init__":
+                for st in mth.body:
+                    tgt = st.targets[0] if isinstance(st, ast.Assign) and len(st.targets) == 1 else (st.target if isinstance(st, ast.AnnAssign) else None)
+                    if isinstance(tgt, ast.Attribute) and isinstance(tgt.value, ast.Name) and tgt.value.id == "self" and tgt.attr not in cur:
+                        cur.append(tgt.attr)
+        kn = KNOWN_ATTRS[cls.name]
+        if len(cur) != len(kn):
+            continue
+        for a, b in zip(kn, cur):
+            if a != b and a not in cur and b not in kn:
+                ren[b] = a
+                notes.append(f"{cls.name}.{b} is {a}")
+    if ren:
+        for n in ast.walk(tree):
+            if isinstance(n, ast.Attribute) and n.attr in ren:
+                n.attr = ren[n.attr]
+            elif isinstance(n, ast.AnnAssign) and isinstance(n.target, ast.Name) and n.target.id in ren and isinstance(getattr(n, "_cls", None), str):
+                n.target.id = ren[n.target.id]
+            elif isinstance(n, ast.keyword) and n.arg in ren:
+                n.arg = ren[n.arg]
+        for cls in tree.body:
+            if isinstance(cls, ast.ClassDef) and cls.name in KNOWN_ATTRS:
+                for st in cls.body:
+                    if isinstance(st, ast.AnnAssign) and isinstance(st.target, ast.Name) and st.target.id in ren:
+                        st.target.id = ren[st.target.id]
+    return notes
+
+
 def _restore_names(tree):
     """N0: a frozen function or method that is gone and a new one with the same number of parameters — one
     candidate on each side — are one declaration under two names; it gets the frozen name back."""
@@ -396,7 +443,7 @@ def _restore_locals(tree):
 
 
 def normalize_tree(tree):
-    out = {"renamed": _restore_names(tree)}
+    out = {"renamed": _restore_names(tree) + _restore_attrs(tree)}
     out.update({"walrus_hoisted": _hoist_walrus(tree), "helpers_expanded": _inline_helpers(tree)})
     out["locals_restored"] = _restore_locals(tree)
     out["walrus_hoisted"] += _hoist_walrus(tree)
